@@ -82,7 +82,8 @@ pub fn project(name: &str) -> Project {
                 name: name.into(),
                 sources: vec![src("s.txt.txtpp", "s.txt", &["t.out"], &[], &body("head", "one"), &body("HEAD2", "two"))],
                 plain,
-                sels: vec![sel(&["."], true, &[0]), sel(&["s.txt"], false, &[0]), sel(&["s.txt.txtpp"], false, &[0])],
+                // (the last selection is the empty input list of the library API: nothing is selected, nothing may be touched)
+                sels: vec![sel(&["."], true, &[0]), sel(&["s.txt"], false, &[0]), sel(&["s.txt.txtpp"], false, &[0]), sel(&[], true, &[])],
             }
         }
         "chain" => {
@@ -864,7 +865,7 @@ fn search(rep: &Report, prop: &str, p: &Project, depth: usize, prefixes: bool) {
                 rep.machinery(format!("project {} selection {si}: a pristine build gives ok={} but the project is written to give ok={want_ok}", p.name, fr.ok));
             }
             let fr1 = fc.get(&b, p, &vec![1; p.sources.len()], true, si);
-            if fr.ok && fr1.ok && fr.files == fr1.files && p.name != "empty" {
+            if fr.ok && fr1.ok && fr.files == fr1.files && p.name != "empty" && !p.sels[si].roots.is_empty() {
                 rep.machinery(format!("project {}: editing the sources does not change any generated file", p.name));
             }
         }
@@ -1165,6 +1166,10 @@ fn cli_binding_project(rep: &Report, prop: &str, pname: &str, deep: bool) {
     let mut jobs = vec![];
     for (si, _) in states.iter().enumerate() {
         for op in ops_for(&p, &states[si].0, prop, true, false) {
+            // (the binary cannot express an empty input list: it means the current directory there)
+            if matches!(&op, Op::Run { sel, .. } if p.sels[*sel].inputs.is_empty()) {
+                continue;
+            }
             jobs.push((si, op));
         }
     }
